@@ -228,5 +228,9 @@ func runC14(r *Runner, g *Gen, tier string) string {
 		}
 		r.Do(codecOp("desc", cfg, t, ""), t.K == "struct", "desc")
 	}
+	// concurrent callers get what a lone caller gets
+	for k := 0; k < 3; k++ {
+		r.Do(L(A("descconc"), A(fmt.Sprint(scale(tier, 4000, 60000)))), true, "descconc")
+	}
 	return "generated struct definitions (json tags, all tag options, skipped and unexported fields, nested structs, pointers, all slice shapes, maps, null types, named types) under all option combinations; op = Codec.Descriptor() rendered canonically (index, name, type, type name, explicit presence, logical type, elements); compared with the model's descriptor and with an independent reflection-free computation from the type definition in the harness"
 }
